@@ -88,6 +88,15 @@ class World:  # pylint: disable=too-many-instance-attributes
         """`attach=(model, aux_model)` opens the existing containers under `root` instead of creating them."""
         from disk_objectstore import Container  # pylint: disable=import-outside-toplevel
 
+        lowered = case.get('lowered')
+        if lowered:
+            # same code, other internal look-up strategy: the thresholds that select "IN batches" vs "ordered full scan" are
+            # lowered so that histories with a handful of objects cross them (what > 950 / > 9500 keys do in production)
+            class Lowered(Container):  # pylint: disable=too-few-public-methods
+                _IN_SQL_MAX_LENGTH = lowered[0]
+                _MAX_CHUNK_ITERATE_LENGTH = lowered[1]
+
+            Container = Lowered
         self.Container = Container  # pylint: disable=invalid-name
         self.root = root
         self.case = case
